@@ -147,6 +147,8 @@ def rich_scenario(rng, name):
             steps.append(st)
         elif r < 0.70:
             st = {"a": "Method", "method": rng.choice(METHODS)}
+            if rng.random() < 0.2:     # the whole method under a context that is cancelled / expires after d polls
+                st.update(value=rng.choice(["cancelled", "deadline"]), d=rng.choice([1, 3, 6, 12]))
             if rng.random() < 0.3:
                 st["during"] = [rng.choice([{"a": "Nominate", "node": rng.choice(names)}, {"a": "Mark", "node": rng.choice(names)},
                                             {"a": "Tick", "d": 3}])]
